@@ -13,6 +13,7 @@ package keyvalue
 //@   ensures "result" implies(err == nil, b != nil)
 //@ interface FileRecord.ReadDirNames() (names []string, err error)
 //@   deterministic
+//@   noworld
 //@ interface FileRecord.Size() (n int64)
 //@   deterministic
 //@   pure
@@ -212,14 +213,27 @@ package keyvalue
 // ---- lazily evaluated record view of a handle (record.go) ----
 
 //@ spec roInv(r *runOnceFileRecord) := r != nil && r.record != nil && (r.dataDone == 0 || r.dataDone == 1) && iff(r.dataDone == 1, oncedone(r.dataOnce)) &&
-//@        implies(r.dataDone == 1 && r.dataErr == nil, r.data != nil) && implies(isMemRec(r.record), r.record.(mem.fileRecord).data != nil)
+//@        implies(r.dataDone == 1 && r.dataErr == nil, r.data != nil) && implies(isMemRec(r.record), memRecWF(r.record)) && implies(isBaseRec(r.record), r.record.(*BaseFileRecord) != nil)
 // A record of the in-memory store is read directly (its methods are verified in package mem and dispatched to here);
 // any other record through the deterministic FileRecord interface contract.
 //@ spec isMemRec(rec FileRecord) := isType(rec, mem.fileRecord)
+//@ spec memRecWF(rec FileRecord) := rec.(mem.fileRecord).data != nil && rec.(mem.fileRecord).store != nil
 //@ spec rawData(rec FileRecord) := ite(isMemRec(rec), rec.(mem.fileRecord).data, ret("keyvalue.(FileRecord).Data", 0, rec))
 //@ spec rawDataErr(rec FileRecord) := ite(isMemRec(rec), nil, ret("keyvalue.(FileRecord).Data", 1, rec))
-//@ spec rawMode(rec FileRecord) := ite(isMemRec(rec), rec.(mem.fileRecord).mode, ret("keyvalue.(FileRecord).Mode", 0, rec))
-//@ spec rawMTime(rec FileRecord) := ite(isMemRec(rec), rec.(mem.fileRecord).modTime, ret("keyvalue.(FileRecord).ModTime", 0, rec))
+//@ spec isBaseRec(rec FileRecord) := isType(rec, *BaseFileRecord)
+//@ spec rawMode(rec FileRecord) := ite(isMemRec(rec), rec.(mem.fileRecord).mode, ite(isBaseRec(rec), rec.(*BaseFileRecord).mode, ret("keyvalue.(FileRecord).Mode", 0, rec)))
+//@ spec rawMTime(rec FileRecord) := ite(isMemRec(rec), rec.(mem.fileRecord).modTime, ite(isBaseRec(rec), rec.(*BaseFileRecord).modTime, ret("keyvalue.(FileRecord).ModTime", 0, rec)))
+
+// BaseFileRecord: immutable metadata; its data / directory getters are caller-supplied functions, which enter as the
+// deterministic FileRecord interface contract (assumed: the type's documentation requires consistent values).
+//@ func (b *BaseFileRecord) Data() (bl blob.Blob, err error)
+//@   assumed
+//@   requires b != nil
+//@   ensures "as-interface" bl == ret("keyvalue.(FileRecord).Data", 0, FileRecord(b)) && err == ret("keyvalue.(FileRecord).Data", 1, FileRecord(b)) && implies(err == nil, bl != nil)
+//@ func (b *BaseFileRecord) Mode() (m hackpadfs.FileMode)
+//@   inline
+//@ func (b *BaseFileRecord) ModTime() (t time.Time)
+//@   inline
 //@ spec recDataBlob(r *runOnceFileRecord) := rawData(r.record)
 //@ spec recDataErr(r *runOnceFileRecord) := rawDataErr(r.record)
 //@ spec curBlob(r *runOnceFileRecord) := ite(r.dataDone == 1, payload(r.data), payload(recDataBlob(r)))
@@ -250,9 +264,9 @@ package keyvalue
 //@ spec modeOf(r *runOnceFileRecord) := ite(oncedone(r.modeOnce), r.mode, rawMode(r.record))
 
 //@ func (r *runOnceFileRecord) Mode() (m hackpadfs.FileMode)
-//@   dispatch FileRecord mem.fileRecord
+//@   dispatch FileRecord mem.fileRecord *BaseFileRecord
 //@   props C02 C01
-//@   requires r != nil && r.record != nil
+//@   requires roInv(r)
 //@   modifies r.mode, oncedone(r.modeOnce)
 //@   ensures "mode" m == old(modeOf(r)) && r.mode == m && oncedone(r.modeOnce)
 //@   nopanic
@@ -260,34 +274,39 @@ package keyvalue
 //@ spec mtimeOf(r *runOnceFileRecord) := ite(oncedone(r.modTimeOnce), r.modTime, rawMTime(r.record))
 
 //@ func (r *runOnceFileRecord) ModTime() (t time.Time)
-//@   dispatch FileRecord mem.fileRecord
+//@   dispatch FileRecord mem.fileRecord *BaseFileRecord
 //@   props C01
-//@   requires r != nil && r.record != nil
+//@   requires roInv(r)
 //@   modifies r.modTime, oncedone(r.modTimeOnce)
 //@   ensures "mtime" t == old(mtimeOf(r)) && r.modTime == t && oncedone(r.modTimeOnce)
 //@   nopanic
 
 //@ func (r *runOnceFileRecord) Sys() (v interface{})
-//@   requires r != nil && r.record != nil
+//@   requires roInv(r)
 //@   modifies r.sys, oncedone(r.sysOnce)
 //@   nopanic
 
 //@ spec dirNamesOf(r *runOnceFileRecord) := ret("keyvalue.(FileRecord).ReadDirNames", 0, r.record)
 //@ spec dirNamesErrOf(r *runOnceFileRecord) := ret("keyvalue.(FileRecord).ReadDirNames", 1, r.record)
 
+//@ spec memRecStore(rec FileRecord) := rec.(mem.fileRecord).store
+//@ spec memHasChild(rec FileRecord) := exists(k, dom(memRecStore(rec).records), mem.isChildKey(k, rec.(mem.fileRecord).path))
 //@ func (r *runOnceFileRecord) ReadDirNames() (names []string, err error)
-//@   props C16 C14
-//@   requires r != nil && r.record != nil
-//@   modifies r.dirNames, r.dirNamesErr, oncedone(r.dirNamesOnce), world()
-//@   ensures "first" implies(!old(oncedone(r.dirNamesOnce)), names == old(dirNamesOf(r)) && err == old(dirNamesErrOf(r)) &&
-//@                     world() == old(worldAfter("keyvalue.(FileRecord).ReadDirNames", r.record)))
-//@   ensures "cached" implies(old(oncedone(r.dirNamesOnce)), names == old(r.dirNames) && err == old(r.dirNamesErr) && world() == old(world()))
+//@   props C16 C14 C03
+//@   dispatch FileRecord mem.fileRecord
+//@   requires roInv(r)
+//@   modifies r.dirNames, r.dirNamesErr, oncedone(r.dirNamesOnce)
+//@   ensures "first" implies(!old(oncedone(r.dirNamesOnce)) && !isMemRec(r.record), names == old(dirNamesOf(r)) && err == old(dirNamesErrOf(r)))
+//@   ensures "mem-first" [C03 C01] implies(!old(oncedone(r.dirNamesOnce)) && isMemRec(r.record),
+//@                     iff(err == nil, r.record.(mem.fileRecord).mode & hackpadfs.ModeDir != 0) && implies(err != nil, err == hackpadfs.ErrNotDir) &&
+//@                     implies(err == nil, iff(len(names) > 0, memHasChild(r.record))))
+//@   ensures "cached" implies(old(oncedone(r.dirNamesOnce)), names == old(r.dirNames) && err == old(r.dirNamesErr))
 //@   ensures "state" r.dirNames == names && r.dirNamesErr == err && oncedone(r.dirNamesOnce)
 //@   nopanic
 
 //@ func (f *fileData) Mode() (m hackpadfs.FileMode)
 //@   props C02 C01
-//@   requires f != nil && f.record != nil
+//@   requires f != nil && roInv(f.runOnceFileRecord)
 //@   modifies f.mode, oncedone(f.modeOnce)
 //@   ensures "override" implies(f.modeOverride != nil, m == *f.modeOverride)
 //@   ensures "record" implies(f.modeOverride == nil, m == old(modeOf(f.runOnceFileRecord)))
@@ -301,7 +320,7 @@ package keyvalue
 //@ spec fdData(d *fileData) := ite(d.runOnceFileRecord.dataDone == 1, d.runOnceFileRecord.data, recDataBlob(d.runOnceFileRecord))
 //@ spec fdDataErr(d *fileData) := ite(d.runOnceFileRecord.dataDone == 1, d.runOnceFileRecord.dataErr, recDataErr(d.runOnceFileRecord))
 //@ spec fdInv(d *fileData) := d != nil && roInv(d.runOnceFileRecord)
-//@ spec srcOK(src FileRecord) := implies(isType(src, *fileData), fdInv(src.(*fileData))) && implies(isMemRec(src), src.(mem.fileRecord).data != nil)
+//@ spec srcOK(src FileRecord) := implies(isType(src, *fileData), fdInv(src.(*fileData))) && implies(isMemRec(src), memRecWF(src)) && implies(isBaseRec(src), src.(*BaseFileRecord) != nil)
 //@ spec srcMode(src FileRecord) := ite(isType(src, *fileData), fdMode(src.(*fileData)), rawMode(src))
 //@ spec srcMTime(src FileRecord) := ite(isType(src, *fileData), fdMTime(src.(*fileData)), rawMTime(src))
 //@ spec srcData(src FileRecord) := ite(isType(src, *fileData), fdData(src.(*fileData)), rawData(src))
@@ -445,7 +464,7 @@ package keyvalue
 //@ func (fs *FS) setFile(path string, file FileRecord) (err error)
 //@   props C14 C01 C03 C17
 //@   requires fsInv(fs) && (isMem(fs) || isSerial(fs)) && VP(path) && srcOK(file)
-//@   dispatch FileRecord *fileData mem.fileRecord
+//@   dispatch FileRecord *fileData mem.fileRecord *BaseFileRecord
 //@   dispatch Transaction *mem.transaction *unsafeSerialTransaction
 //@   modifies world(), mapOf(ms(fs).records), held(ms(fs).mu),
 //@            fdCache(file).data, fdCache(file).dataErr, fdCache(file).dataDone, oncedone(fdCache(file).dataOnce),
@@ -596,25 +615,29 @@ package keyvalue
 //@                   err == old(ret("hackpadfs.Stat", 1, fs, pathJoin(basePath, name))) && world() == old(worldAfter("hackpadfs.Stat", fs, pathJoin(basePath, name)))
 //@   nopanic
 
-//@ spec hNames(f *file) := ite(oncedone(fRec(f).dirNamesOnce), fRec(f).dirNames, dirNamesOf(fRec(f)))
-//@ spec hNamesErr(f *file) := ite(oncedone(fRec(f).dirNamesOnce), fRec(f).dirNamesErr, dirNamesErrOf(fRec(f)))
-//@ spec pageStart(f *file) := min(f.offset, len(hNames(f)))
-//@ spec pageEnd(f *file, n int) := ite(n > 0 && n < len(hNames(f)) - pageStart(f), pageStart(f) + n, len(hNames(f)))
+// The listing of a directory handle is fetched once and cached; pages are windows of that cached listing.
+//@ spec cNames(f *file) := fRec(f).dirNames
+//@ spec cNamesErr(f *file) := fRec(f).dirNamesErr
+//@ spec pageStart(f *file, off int64) := min(off, len(cNames(f)))
+//@ spec pageEnd(f *file, off int64, n int) := ite(n > 0 && n < len(cNames(f)) - pageStart(f, off), pageStart(f, off) + n, len(cNames(f)))
 
 //@ func (f *file) ReadDir(n int) (entries []hackpadfs.DirEntry, err error)
 //@   props C16 C17 C14
 //@   requires fileInv(f)
 //@   modifies fRec(f).dirNames, fRec(f).dirNamesErr, oncedone(fRec(f).dirNamesOnce), world(), f.offset
 //@   loop 1 invariant "page" rangeindex >= -1 && rangeindex < max(end - start, 1) && (end - start > 0 || rangeindex == -1) && len(entries) == rangeindex + 1 &&
-//@                      (ref(entries) == 0 || fresh(entries)) && start == old(pageStart(f)) && end == old(pageEnd(f, n)) && dirNames == old(hNames(f)) && f.offset == old(f.offset) && !f.closed &&
+//@                      (ref(entries) == 0 || fresh(entries)) && start == pageStart(f, old(f.offset)) && end == pageEnd(f, old(f.offset), n) && dirNames == cNames(f) && f.offset == old(f.offset) && !f.closed &&
+//@                      oncedone(fRec(f).dirNamesOnce) && cNamesErr(f) == nil && implies(old(oncedone(fRec(f).dirNamesOnce)), cNames(f) == old(cNames(f))) &&
 //@                      forall(i, 0, len(entries), isType(entries[i], *dirEntry) && entries[i].(*dirEntry) != nil && entries[i].(*dirEntry).baseName == dirNames[start + i])
 //@   ensures "closed" implies(f.closed, entries == nil && closedError(err, f) && f.offset == old(f.offset))
-//@   ensures "names-error" implies(!f.closed && old(hNamesErr(f)) != nil, entries == nil && isPathError(err) && pathOf(err) == f.path && innerErr(err) == old(hNamesErr(f)) && f.offset == old(f.offset))
-//@   ensures "eof" implies(!f.closed && old(hNamesErr(f)) == nil && n > 0 && old(f.offset) >= len(old(hNames(f))), len(entries) == 0 && err == io.EOF)
-//@   ensures "page" implies(err == nil, len(entries) == old(pageEnd(f, n)) - old(pageStart(f)) && f.offset == old(pageEnd(f, n)) &&
-//@                     forall(i, 0, len(entries), isType(entries[i], *dirEntry) && entries[i].(*dirEntry).baseName == old(hNames(f))[old(pageStart(f)) + i]))
-//@   ensures "nonempty-or-eof" implies(!f.closed && n > 0 && old(hNamesErr(f)) == nil && err == nil, len(entries) > 0)
-//@   ensures "all" implies(!f.closed && n <= 0 && old(hNamesErr(f)) == nil && err == nil, len(entries) == len(old(hNames(f))) - old(pageStart(f)))
+//@   ensures "listing-cached" implies(!f.closed, oncedone(fRec(f).dirNamesOnce)) && implies(old(oncedone(fRec(f).dirNamesOnce)), cNames(f) == old(cNames(f)) && cNamesErr(f) == old(cNamesErr(f)))
+//@   ensures "listing-first" implies(!f.closed && !old(oncedone(fRec(f).dirNamesOnce)) && !isMemRec(fRec(f).record), cNames(f) == old(dirNamesOf(fRec(f))) && cNamesErr(f) == old(dirNamesErrOf(fRec(f))))
+//@   ensures "names-error" implies(!f.closed && cNamesErr(f) != nil, entries == nil && isPathError(err) && pathOf(err) == f.path && innerErr(err) == cNamesErr(f) && f.offset == old(f.offset))
+//@   ensures "eof" implies(!f.closed && cNamesErr(f) == nil && n > 0 && old(f.offset) >= len(cNames(f)), len(entries) == 0 && err == io.EOF)
+//@   ensures "page" implies(err == nil, len(entries) == pageEnd(f, old(f.offset), n) - pageStart(f, old(f.offset)) && f.offset == pageEnd(f, old(f.offset), n) &&
+//@                     forall(i, 0, len(entries), isType(entries[i], *dirEntry) && entries[i].(*dirEntry).baseName == cNames(f)[pageStart(f, old(f.offset)) + i]))
+//@   ensures "nonempty-or-eof" implies(!f.closed && n > 0 && cNamesErr(f) == nil && err == nil, len(entries) > 0)
+//@   ensures "all" implies(!f.closed && n <= 0 && cNamesErr(f) == nil && err == nil, len(entries) == len(cNames(f)) - pageStart(f, old(f.offset)))
 //@   nopanic
 
 //@ spec bufNoAlias(f *file, p []byte) := implies(hDataErr(f) == nil, ref(p) != ref(hData(f).(*blob.Bytes).bytes) || ref(p) == 0)
@@ -826,6 +849,25 @@ package keyvalue
 //@   ensures "mem-hit" [C01] implies(VP(name) && isMem(fs) && kvHas(fs, name), err == nil && kvHas(fs, name) && memSameExcept(fs, name) && isType(kvRec(fs, name), mem.fileRecord) &&
 //@                     memRec(fs, name).mode == old(memRec(fs, name).mode) && memRec(fs, name).data == old(memRec(fs, name).data) &&
 //@                     memRec(fs, name).modTime == ite(mtime != 0, mtime, old(memRec(fs, name).modTime)))
+//@   ensures "mem-world" implies(isMem(fs), world() == old(world()))
+//@   ensures "store-error" [C14] implies(VP(name) && isSerial(fs) && old(storeGetErr(fsStore(fs), name)) != nil, err != nil)
+//@   ensures "inv" fsInv(fs)
+//@   nopanic
+
+//@ spec memIsDir(fs *FS, name string) := memRec(fs, name).mode & hackpadfs.ModeDir != 0
+//@ spec memHasChildOf(fs *FS, name string) := exists(k, dom(ms(fs).records), mem.isChildKey(k, name))
+
+//@ func (fs *FS) Remove(name string) (err error)
+//@   props C01 C04 C05 C14 C03
+//@   requires fsOK(fs)
+//@   modifies world(), mapOf(ms(fs).records)
+//@   ensures "gate" [C04] implies(!VP(name), pathErr(err, "remove", name) && errIs(err, hackpadfs.ErrInvalid) && world() == old(world()) && implies(isMem(fs), memSame(fs)))
+//@   ensures "typed" [C05] implies(err != nil, pathErr(err, "remove", name))
+//@   ensures "mem-miss" implies(VP(name) && isMem(fs) && !old(kvHas(fs, name)), errIs(err, hackpadfs.ErrNotExist) && memSame(fs))
+//@   ensures "mem-nonempty" [C03 C01] implies(VP(name) && isMem(fs) && old(kvHas(fs, name)) && old(memIsDir(fs, name)) && old(memHasChildOf(fs, name)),
+//@                     errIs(err, hackpadfs.ErrNotEmpty) && memSame(fs))
+//@   ensures "mem-removed" [C01] implies(VP(name) && isMem(fs) && old(kvHas(fs, name)) && !(old(memIsDir(fs, name)) && old(memHasChildOf(fs, name))),
+//@                     err == nil && !kvHas(fs, name) && memSameExcept(fs, name))
 //@   ensures "mem-world" implies(isMem(fs), world() == old(world()))
 //@   ensures "store-error" [C14] implies(VP(name) && isSerial(fs) && old(storeGetErr(fsStore(fs), name)) != nil, err != nil)
 //@   ensures "inv" fsInv(fs)
